@@ -104,6 +104,11 @@ async def direct(w: ReloadWorld, row: dict) -> None:
             await systemcheck.direct(w, [{'do': 'quiet'}])
     w.absorb()
     w.do_reload(new, row['fault'], row['changed'])
+    second = row.get('second', 'none')
+    # the second reload: the good new configuration after a failed one, back to the old configuration after a successful one
+    again = new if row['fault'] != 'none' else {'k1': row['old1'], 'k2': row['old2']}
+    if second == 'atonce':
+        w.do_reload(again, 'none', False)
     await asyncio.sleep(0.3)
     # (re-)establish until the session stays: a reload that changes the neighbour tears the next session down once (6/3)
     hold = 30 if (row['changed'] and row['fault'] == 'none') else None
@@ -115,6 +120,15 @@ async def direct(w: ReloadWorld, row: dict) -> None:
         await w.establish(hold=hold)
         await asyncio.sleep(0.6)
     await systemcheck.direct(w, [{'do': 'quiet'}])
+    if second == 'later':
+        w.do_reload(again, 'none', False)
+        await asyncio.sleep(0.3)
+        for _ in range(3):
+            if w.peer.fsm.name() == 'ESTABLISHED' and w.remote is not None:
+                break
+            await w.establish(hold=hold)
+            await asyncio.sleep(0.6)
+        await systemcheck.direct(w, [{'do': 'quiet'}])
     # the API keeps working after the reload, whatever its outcome
     w.op('Announce', 'k3', 'y')
     await systemcheck.direct(w, [{'do': 'quiet'}])
@@ -150,15 +164,15 @@ def run(tier: str) -> int:
     # adj-rib-out false changes what a reconnection re-sends (nothing is kept, by design): that configuration is only explored for
     # reloads on an established, unchanged session without API routes
     rows = [st['u'] for st in states if not st['u']['noarib'] or (st['u']['api'] == 'none' and st['u']['up'] and not st['u']['changed'] and st['u']['fault'] == 'none')]
-    limit = 260 if tier == 'quick' else 3240
+    limit = 420 if tier == 'quick' else 4000
     ck.cov['exhaustive'] = len(rows) <= limit
     if len(rows) > limit:
         # every fault x up/down x changed at least 6 times, then seeded sample
         rnd.shuffle(rows)
         by = {}
         for r in rows:
-            by.setdefault((r['fault'], r['up'], r['changed'], r['noarib']), []).append(r)
-        keep = [r for v in by.values() for r in v[:5]]
+            by.setdefault((r['fault'], r['up'], r['changed'], r['noarib'], r['second']), []).append(r)
+        keep = [r for v in by.values() for r in v[:3]]
         rest = [r for r in rows if r not in keep]
         rows = keep + rest[: max(0, limit - len(keep))]
     lines, meta = [], {}
@@ -176,8 +190,8 @@ def run(tier: str) -> int:
         row = meta[b['tid']]
         for clause in b['clauses']:
             name = clause.replace('C11-S3', 'C17-after-reload').replace('C11-S5', 'C17-after-reload').replace('C11-S1', 'C17-after-reload').replace('C11-', 'C17-via-')
-            fp = {'clause': name, 'fault': row['fault'], 'up': row['up'], 'changed': row['changed']}
-            ck.violation(fp, f'{name} ({b["e"]}): old={{k1:{row["old1"]},k2:{row["old2"]}}} new={{k1:{row["new1"]},k2:{row["new2"]}}} api={row["api"]} up={row["up"]} changed={row["changed"]} fault={row["fault"]}', {'row': row, 'clause': clause})
+            fp = {'clause': name, 'fault': row['fault'], 'up': row['up'], 'changed': row['changed'], 'second': row.get('second', 'none')}
+            ck.violation(fp, f'{name} ({b["e"]}): old={{k1:{row["old1"]},k2:{row["old2"]}}} new={{k1:{row["new1"]},k2:{row["new2"]}}} api={row["api"]} up={row["up"]} changed={row["changed"]} fault={row["fault"]} second={row.get("second")}', {'row': row, 'clause': clause})
     return ck.finish()
 
 
